@@ -3,7 +3,8 @@
    Path strings are lists of code points; `kresolve cwd p` is where the operating system lands when
    it is handed the string p while the process working directory is cwd (no symbolic links);
    `real_segs raw` are the segments of raw other than '' and '.'. *)
-From RipV Require Import Base.Prelude Base.Fs Model.Paths Proofs.PathsProofs Gen.Resolvers.
+From RipV Require Import Base.Prelude Base.Fs Model.Paths Proofs.PathsProofs Proofs.PathToolsProofs Proofs.PathToolsWitness
+  Gen.Resolvers.
 
 (* the resolver of read / write / ls / grep / bash cwd / task cwd and Workspace::safe_join: whatever
    string is accepted lands exactly at <root>/<real segments of the string> — for every root, every
@@ -139,6 +140,78 @@ Theorem c13_auto_write_unfixed_refuted :
 Proof. exact auto_write_unfixed_refuted. Qed.
 Print Assumptions c13_auto_write_unfixed_refuted.
 
+(* ---------- what the tools do with the resolved path ----------
+   `tool_run progs t ex root raw ext names` = the verdict and every (operation, path string) a path-taking tool hands to
+   the operating system: read, write (append / atomic with its temporary file / plain), ls and grep (the walk and every
+   entry `names` below it), the working directory of the bash tool and of pipes / pty tasks with and without a cwd
+   argument, the four patch headers of apply_patch incl. its undo, checkpoint create (source side) and rewind (snapshot,
+   restore, undo).  The programs are (operation, derivation) lists READ FROM THE SOURCE (Gen/Resolvers.v); `ex` says which
+   path strings exist (create_dir_all walks up to the first existing ancestor; the workspace root exists).
+   For every tool, every root without `..`, every string, every process working directory: a refused request makes no
+   access at all, and every access of an accepted one lands at or below the workspace root.  The one hypothesis is about
+   std's Path::with_extension (the atomic write's temporary file), which is NOT confined for every file name - see
+   c13_write_tmp_dotdot_refuted - and is discharged by c13_write_tmp_confined for every string that ends with its file
+   name (`inside R q`: q is absolute, free of `..`, and its real segments extend R). *)
+Theorem c13_tools_confined : forall (t : tool) (ex : str -> bool) (root raw ext : str) (names : list str) (cwd : list str)
+    (found : bool) (progs : list (N * list (N * N))) (v : N) (accs : list (N * str)),
+  tools_wf found progs = true ->
+  is_absolute root = true -> has_parent root = false ->
+  (forall s, is_absolute s = true -> has_parent s = false -> real_segs s = real_segs root -> ex s = true) ->
+  forallb proper_name names = true ->
+  (forall p, tool_path t root raw = Ok p -> real_segs p <> real_segs root ->
+     inside (real_segs root) (with_extension p ext)) ->
+  tool_run progs t ex root raw ext names = (v, accs) ->
+  (v <> 0 -> accs = []) /\ (forall o q, In (o, q) accs -> under cwd root q).
+Proof. exact tools_confined. Qed.
+Print Assumptions c13_tools_confined.
+
+(* the temporary file of an atomic write to `d ++ name` (d empty or a directory text ending in '/'; name a file name
+   other than `..x`): next to the target, below the root *)
+Theorem c13_write_tmp_confined : forall (root d name ext : str),
+  is_absolute root = true -> has_parent root = false -> no_sep root = false ->
+  is_absolute d = false -> has_parent d = false -> (d = [] \/ exists dir, d = dir ++ [47]) ->
+  proper_name name = true -> tmp_safe name = true -> ext <> [] -> ~ In 47 ext ->
+  inside (real_segs root) (with_extension (join root (d ++ name)) ext).
+Proof. exact write_tmp_inside. Qed.
+Print Assumptions c13_write_tmp_confined.
+
+(* Path::parent and the create_dir_all chain, entries of a walk: where they land *)
+Theorem c13_parent_lands_above : forall (q q' : str),
+  is_absolute q = true -> parent q = Some q' -> is_absolute q' = true /\ real_segs q' = removelast (real_segs q).
+Proof. exact parent_spec. Qed.
+Print Assumptions c13_parent_lands_above.
+
+Theorem c13_walk_entries_below : forall (names : list str) (q : str),
+  is_absolute q = true -> has_parent q = false -> forallb proper_name names = true ->
+  is_absolute (descend q names) = true /\ has_parent (descend q names) = false
+  /\ real_segs (descend q names) = real_segs q ++ names.
+Proof. exact descend_props. Qed.
+Print Assumptions c13_walk_entries_below.
+
+(* tie T1: the (operation, derivation) list of every path-taking function as read from /repo on this run: every
+   file-system / process call takes the resolver's result, its parent behind the stated check, its with_extension, an
+   entry of the walk started at it, or (no cwd argument) the workspace root - nothing else *)
+Theorem c13_repo_tools_wf : tools_wf gen_tools_found gen_tool_progs = true.
+Proof. exact gen_tools_ok. Qed.
+Print Assumptions c13_repo_tools_wf.
+
+(* the write tool before 0a47111 (S10b): the parent chain / temporary file of '' '.' './' lie next to the root *)
+Theorem c13_write_unguarded_refuted :
+  exists raw o q, In (o, q) (snd (tool_run_unguarded expected_progs TWrite t_ex t_root raw t_ext t_names))
+    /\ underb [] t_root q = false.
+Proof. exact write_unguarded_refuted. Qed.
+Print Assumptions c13_write_unguarded_refuted.
+
+(* std's with_extension on a file name `..x`: the "temporary file" is the directory above (an open that always fails
+   with EISDIR; replayed on the real tool: "write failed", nothing created or changed) - why c13_tools_confined carries
+   its hypothesis *)
+Theorem c13_write_tmp_dotdot_refuted :
+  exists raw o q, tool_refuses_dir TWrite raw = false
+    /\ In (o, q) (snd (tool_run expected_progs TWrite t_ex t_root raw t_ext t_names))
+    /\ underb [] t_root q = false /\ tmp_safe raw = false.
+Proof. exact write_tmp_dotdot_refuted. Qed.
+Print Assumptions c13_write_tmp_dotdot_refuted.
+
 (* the hypotheses are satisfiable *)
 Example c13_ex_resolve : resolve_tool w_root w_dotted = Ok w_dotted_abs.
 Proof. exact ex_resolve. Qed.
@@ -150,3 +223,15 @@ Example c13_ex_fixed_refuses_witnesses :
   to_relative w_root w_up = Err V_PARENT /\ to_relative w_root w_abs_up = Err V_PARENT
   /\ to_relative w_root w_plain = Ok w_plain /\ to_relative w_root w_abs_in = Ok w_plain.
 Proof. exact to_relative_fixed_on_witnesses. Qed.
+Example c13_ex_tool_write : tool_run expected_progs TWrite t_ex t_root t_raw t_ext t_names = (0, t_write_accs).
+Proof. exact ex_write_run. Qed.
+Example c13_ex_tool_grep : tool_run expected_progs TGrep t_ex t_root t_dir t_ext t_names = (0, t_grep_accs).
+Proof. exact ex_grep_run. Qed.
+Example c13_ex_tool_refused : tool_run expected_progs TWrite t_ex t_root t_up t_ext t_names = (V_PARENT, [])
+  /\ tool_run expected_progs TWrite t_ex t_root t_dotslash t_ext t_names = (V_NOFILE, [])
+  /\ tool_run expected_progs TCwdDefault t_ex t_root [] t_ext t_names = (0, [(9, t_root)]).
+Proof. exact ex_refused_run. Qed.
+Example c13_ex_tool_hyps : is_absolute t_root = true /\ has_parent t_root = false /\ no_sep t_root = false
+  /\ forallb proper_name t_names = true /\ t_ext <> [] /\ ~ In 47 t_ext
+  /\ proper_name t_name = true /\ tmp_safe t_name = true.
+Proof. exact ex_hyps. Qed.
